@@ -90,6 +90,8 @@ type State struct {
 	iters   map[cellKey2]Term
 	written map[string]bool
 	effects Term // ghost effect counter / log (file-system writes)
+	dirtyOld bool // some object that existed at unit entry may have been written (or havocked)
+	dirty    map[string]bool // ... per heap name
 }
 
 type cellKey2 struct {
@@ -98,7 +100,7 @@ type cellKey2 struct {
 }
 
 func (s *State) clone() *State {
-	n := &State{reach: s.reach, top: s.top, effects: s.effects,
+	n := &State{reach: s.reach, top: s.top, effects: s.effects, dirtyOld: s.dirtyOld,
 		cells: make(map[cellKey]Term, len(s.cells)), globals: make(map[*ssa.Global]Term, len(s.globals)),
 		heaps: make(map[string]Term, len(s.heaps)), iters: make(map[cellKey2]Term, len(s.iters)), written: make(map[string]bool, len(s.written))}
 	for k, v := range s.cells {
@@ -116,7 +118,21 @@ func (s *State) clone() *State {
 	for k, v := range s.written {
 		n.written[k] = v
 	}
+	if len(s.dirty) > 0 {
+		n.dirty = make(map[string]bool, len(s.dirty))
+		for k := range s.dirty {
+			n.dirty[k] = true
+		}
+	}
 	return n
+}
+
+func (s *State) markDirty(heap string) {
+	s.dirtyOld = true
+	if s.dirty == nil {
+		s.dirty = map[string]bool{}
+	}
+	s.dirty[heap] = true
 }
 
 type Obligation struct {
@@ -158,6 +174,8 @@ type Exec struct {
 	dry      int
 	unsupported []string
 	modCollect *[]*LVal
+	virt       map[string]*LVal
+	virtByKey  map[string]Term
 	wfDepth int
 	wfDeep bool
 	curGhost string
@@ -272,6 +290,10 @@ func isArrayType(t types.Type) (*types.Array, bool) {
 
 // ptrLVal makes an l-value for the object a pointer value points to.
 func (x *Exec) ptrLVal(p Term, ptrType types.Type) *LVal {
+	if lv, ok := x.virt[p.S]; ok {
+		cp := *lv
+		return &cp
+	}
 	et := derefType(ptrType)
 	if a, ok := isArrayType(et); ok {
 		return &LVal{ptr: p, rootT: a.Elem(), arr: true, typ: et}
@@ -310,10 +332,21 @@ func (x *Exec) setRoot(st *State, lv *LVal, v Term) {
 	case lv.arr:
 		h := x.vc.arrHeap(lv.rootT)
 		x.setHeap(st, h, store(x.heap(st, h), lv.ptr, v))
+		if !isFreshRefTerm(lv.ptr) {
+			st.markDirty(h.name)
+		}
 	default:
 		h := x.vc.objHeap(lv.rootT)
 		x.setHeap(st, h, store(x.heap(st, h), lv.ptr, v))
+		if !isFreshRefTerm(lv.ptr) {
+			st.markDirty(h.name)
+		}
 	}
+}
+
+// isFreshRefTerm: the reference term names an object allocated in this unit.
+func isFreshRefTerm(t Term) bool {
+	return strings.HasPrefix(t.S, "ref!") || strings.HasPrefix(t.S, "mref!")
 }
 
 func (x *Exec) load(st *State, lv *LVal) Term {
@@ -334,6 +367,14 @@ func (x *Exec) load(st *State, lv *LVal) Term {
 	}
 	t = x.vc.name("ld", t)
 	x.wf(st, t, lv.typ)
+	// closure of the entry heap: while no pre-existing object has been written, what such an
+	// object refers to existed at entry as well
+	if lv.cell == nil && lv.global == nil && !st.dirty[x.lvHeapName(lv)] && x.vc.noName == 0 && x.top0.S != "" && !isFreshRefTerm(lv.ptr) {
+		switch underlying(lv.typ).(type) {
+		case *types.Pointer, *types.Map, *types.Slice, *types.Interface:
+			x.vc.assert(implies(le(lv.ptr, x.top0), x.refsOld(t, lv.typ, 0)))
+		}
+	}
 	return t
 }
 
@@ -385,8 +426,12 @@ func (x *Exec) wf(st *State, t Term, typ types.Type) {
 			}
 		}
 	case *types.Pointer, *types.Map:
+		// references: nil = 0, objects = 1..top, virtual references (addresses of locals and
+		// interior locations, see materialize) < 0
 		if !isLiteral(t) {
-			x.vc.assert(le(intLit(0), t))
+			if x.wfDeep {
+				x.vc.assert(le(intLit(0), t)) // inputs hold no virtual references
+			}
 			if st != nil {
 				x.vc.assert(le(t, st.top))
 			}
@@ -395,7 +440,11 @@ func (x *Exec) wf(st *State, t Term, typ types.Type) {
 		if !isLiteral(t) && st != nil {
 			// a reference carried by an interface value refers to an existing object
 			x.vc.declareFun("isref", []Sort{SInt}, SBool)
-			x.vc.assert(implies(app(SBool, "isref", iType(t)), and(le(intLit(0), iVal(t)), le(iVal(t), st.top))))
+			if x.wfDeep {
+				x.vc.assert(implies(app(SBool, "isref", iType(t)), and(le(intLit(0), iVal(t)), le(iVal(t), st.top))))
+			} else {
+				x.vc.assert(implies(app(SBool, "isref", iType(t)), le(iVal(t), st.top)))
+			}
 		}
 	case *types.Struct:
 		// references held in fields (by value) of a struct value (parameters and fresh results only)
@@ -509,26 +558,56 @@ func (x *Exec) closByTerm() map[string]*closure {
 	return m
 }
 
-// materialize turns an address into a pointer value. Cells and interior
-// addresses get a fresh reference holding a copy (copy-in); see A4.
+// materialize turns an address (a local cell, a global, or an interior location of a heap
+// object) into a pointer VALUE. The value is a virtual reference: a negative constant that
+// the engine maps back to the l-value, so every later dereference (in inlined callees, in
+// contract clauses, in modifies clauses) reads and writes the original location. No copy is
+// made and no heap is written.
 func (x *Exec) materialize(fr *Frame, st *State, lv *LVal, v ssa.Value) Term {
 	if lv.cell == nil && lv.global == nil && len(lv.path) == 0 {
 		return lv.ptr
 	}
-	if lv.global != nil && len(lv.path) == 0 {
-		// stable pseudo-reference for globals: negative address space is not used; use a named constant
-		name := "gaddr_" + mangle(lv.global.Name())
-		if !x.vc.declared["c:"+name] {
-			x.vc.declared["c:"+name] = true
-			x.vc.decls = append(x.vc.decls, fmt.Sprintf("(declare-const %s Int)", name))
-		}
-		x.note("address of global %s used as a value (contents copied at use)", lv.global.Name())
+	key := lvalKey(lv)
+	if x.virtByKey == nil {
+		x.virtByKey = map[string]Term{}
+		x.virt = map[string]*LVal{}
 	}
-	// copy-in
-	cur := x.load(st, lv)
-	ref := x.alloc(st, lv.typ, cur)
-	x.note("interior/cell address materialised by copy in %s", shortFn(fr.fn))
-	return ref
+	if t, ok := x.virtByKey[key]; ok {
+		return t
+	}
+	for _, pe := range lv.path {
+		if pe.isIdx && strings.Contains(pe.idx.S, "bv!") {
+			panic(engErr("address of an element selected by a quantified index used as a value"))
+		}
+	}
+	x.vc.nfresh++
+	name := fmt.Sprintf("vp!%d", x.vc.nfresh)
+	x.vc.decls = append(x.vc.decls, fmt.Sprintf("(declare-const %s Int)", name), fmt.Sprintf("(assert (< %s 0))", name))
+	t := Term{name, SInt}
+	x.virtByKey[key] = t
+	cp := *lv
+	x.virt[name] = &cp
+	return t
+}
+
+func lvalKey(lv *LVal) string {
+	var b strings.Builder
+	switch {
+	case lv.cell != nil:
+		fmt.Fprintf(&b, "cell:%d:%p", lv.cell.fr, lv.cell.a)
+	case lv.global != nil:
+		fmt.Fprintf(&b, "glob:%s", lv.global.Name())
+	default:
+		fmt.Fprintf(&b, "heap:%v:%s:%s", lv.arr, typeKey(lv.rootT), lv.ptr.S)
+	}
+	for _, pe := range lv.path {
+		if pe.isIdx {
+			fmt.Fprintf(&b, "[%s]", pe.idx.S)
+		} else {
+			fmt.Fprintf(&b, ".%d", pe.field)
+		}
+	}
+	return b.String()
 }
 
 func (x *Exec) note(format string, a ...any) {
@@ -753,6 +832,14 @@ func (x *Exec) mergeStates(sts []*State) *State {
 		k := k
 		if v, ok := pick(func(s *State) (Term, bool) { v, ok := s.iters[k]; return v, ok }); ok {
 			res.iters[k] = v
+		}
+	}
+	for _, s := range sts {
+		if s.dirtyOld {
+			res.dirtyOld = true
+		}
+		for k := range s.dirty {
+			res.markDirty(k)
 		}
 	}
 	res.top, _ = pick(func(s *State) (Term, bool) { return s.top, true })
@@ -1066,6 +1153,7 @@ func (x *Exec) enterLoop(fr *Frame, h *ssa.BasicBlock, st *State) *State {
 			}
 			nh := x.vc.fresh(name, old.Sort)
 			hs.heaps[name] = nh
+			hs.markDirty(name)
 			// objects existing at loop entry and written only when fresh keep their contents:
 			// (this frame axiom is justified only for heaps whose in-loop writes target
 			// in-loop allocations; see freshOnly)
@@ -1185,4 +1273,14 @@ func (x *Exec) freshOnlyWrites(fr *Frame, blocks []*ssa.BasicBlock, heapName str
 func (x *Exec) storeMayTouch(addr ssa.Value, heapName string) bool {
 	// conservative: any heap store may touch any heap of matching kind
 	return true
+}
+
+func (x *Exec) lvHeapName(lv *LVal) string {
+	if lv.rootT == nil {
+		return ""
+	}
+	if lv.arr {
+		return x.vc.arrHeap(lv.rootT).name
+	}
+	return x.vc.objHeap(lv.rootT).name
 }
